@@ -89,7 +89,7 @@ def oracle(c):
     im = implmod.Impl()
     im.run(f"sim.new {mode} 1 - {ispec}")
     for l in head.lines:
-        if l.split()[0] in ("sim.prog", "sim.reg", "sim.poke"):
+        if l.split()[0] in ("sim.prog", "sim.load", "sim.reg", "sim.poke"):
             im.run(l)
     sys_ = im.sim.state.instruction_memory
     orig = sys_.read_instruction
